@@ -24,12 +24,14 @@ structure Shard where
 
 inductive Status
   | up | down | errFault | midFault
+  | slow      -- answers, but later than the coordinator's RPC timeout
   deriving Repr, DecidableEq, Inhabited
 
 structure St where
   n : Nat := 0
   shards : List Shard := []
   status : List Status := []
+  slowOK : Bool := false     -- made with the short RPC timeout: a node may be made slow
   deriving Repr, Inhabited
 
 def statusOf (s : St) (i : Nat) : Status := s.status.getD i .down
@@ -38,8 +40,9 @@ def statusOf (s : St) (i : Nat) : Status := s.status.getD i .down
 def needed (s : St) (qlo qhi : Int) : List Shard :=
   s.shards.filter fun sh => sh.lo ≤ qhi && sh.hi > qlo
 
-/-- a node answers metadata requests (field types) unless it is down -/
-def reachable (s : St) (o : Nat) : Bool := statusOf s o != .down
+/-- a node answers metadata requests (field types) unless it is down or slower than the RPC
+timeout -/
+def reachable (s : St) (o : Nat) : Bool := statusOf s o != .down && statusOf s o != .slow
 
 /-- the coordinator can learn the shard's field types: from its own store or from any owner
 that answers -/
